@@ -192,6 +192,10 @@ def as_run_resumed(cfg):
             continue
         seen.add(it)
         check(rh.run(cfg, resume_from=payload), f"resumed-from-{it}")
+        if it < len(R.history["beta"]):
+            # the resuming call names another n_samples (nothing is drawn on resume): efficiencies are those of the population
+            for other in (cfg["N"] * 2, max(2, cfg["N"] // 2)):
+                check(rh.run(dict(cfg, N=other), resume_from=payload), f"resumed-from-{it}-with-n_samples={other}")
     r.sample({"resumed": True, "cfg": cfg})
     return r.dump()
 
